@@ -1,6 +1,10 @@
 package mocker
 
-import "reflect"
+import (
+	"reflect"
+
+	"github.com/tencent/goom/arg"
+)
 
 // C05: result sequences are served in order and stick at the last element.
 
@@ -307,4 +311,38 @@ func VC_C05_default_in_steps() {
 		verifAssert(f(1) == want[i], "C05.default-steps.rows-in-order")
 	}
 	verifReached("C05.default-steps")
+}
+
+// VC_C05_matches_then_more_rows: a Matches table in the middle of a chain: rows added
+// afterwards (AndReturn) still belong to the clause that was open before the table (a
+// condition or the default), the pairs of the table keep their own single result.
+func VC_C05_matches_then_more_rows() {
+	a0, a1, p2, p3, d0 := verifInt("a0"), verifInt("a1"), verifInt("p2"), verifInt("p3"), verifInt("d0")
+	w, err := CreateWhen(nil, vC05F, nil, []interface{}{d0}, false)
+	verifAssert(err == nil, "C05.matches-rows.create-ok")
+	onDefault := verifBool("onDefault")
+	if onDefault {
+		w.Matches(arg.Pair{Args: 2, Return: p2}, arg.Pair{Args: 3, Return: p3}).AndReturn(a1)
+	} else {
+		w.When(1).Return(a0).Matches(arg.Pair{Args: 2, Return: p2}, arg.Pair{Args: 3, Return: p3}).AndReturn(a1)
+	}
+	f := reflect.MakeFunc(w.funcTyp, func(args []reflect.Value) []reflect.Value { return w.invoke(args) }).Interface().(func(int) int)
+	for round := 0; round < 3; round++ {
+		verifAssert(f(2) == p2 && f(3) == p3, "C05.matches-rows.pairs-keep-their-own-result")
+		if onDefault {
+			want := d0
+			if round > 0 {
+				want = a1
+			}
+			verifAssert(f(9) == want, "C05.matches-rows.later-rows-extend-the-open-clause")
+		} else {
+			want := a0
+			if round > 0 {
+				want = a1
+			}
+			verifAssert(f(1) == want, "C05.matches-rows.later-rows-extend-the-open-clause")
+			verifAssert(f(9) == d0, "C05.matches-rows.default-untouched")
+		}
+	}
+	verifReached("C05.matches-rows")
 }
